@@ -619,7 +619,12 @@ func (t *Teamserver) handleRequest(id string) {
 		pk := client.Packager.CreatePackage(string(EventPackage))
 		pk.Head.Time = time.Now().Format("02/01/2006 15:04:05")
 
-		t.EventAppend(pk)
+		// a request to add a listener is not an event: it is answered by the teamserver's own
+		// add event, or by an error to the requester when the listener could not be started.
+		// Replaying the request would announce a listener that may never have existed.
+		if !(pk.Head.Event == packager.Type.Listener.Type && pk.Body.SubEvent == packager.Type.Listener.Add) {
+			t.EventAppend(pk)
+		}
 		t.DispatchEvent(pk)
 	}
 }
